@@ -220,13 +220,19 @@ func (s *Scanner) AddSignature(sig *detection.Signature) error {
 		return err
 	}
 
-	// Append copies the struct value.
-	s.db.Signatures = append(s.db.Signatures, *sig)
-
 	// Update the map index.
 	if s.sigMap == nil {
 		s.sigMap = make(map[string]int)
 	}
+	// An ID that is already stored is updated in place: appending a second record would leave
+	// the superseded version in the list that every scan walks.
+	if idx, ok := s.sigMap[sig.ID]; ok && idx >= 0 && idx < len(s.db.Signatures) && s.db.Signatures[idx].ID == sig.ID {
+		s.db.Signatures[idx] = *sig
+		return nil
+	}
+
+	// Append copies the struct value.
+	s.db.Signatures = append(s.db.Signatures, *sig)
 	s.sigMap[sig.ID] = len(s.db.Signatures) - 1
 
 	return nil
@@ -256,12 +262,15 @@ func (s *Scanner) AddSignatures(sigs []detection.Signature) error {
 			return err
 		}
 
-		s.db.Signatures = append(s.db.Signatures, *sig)
-
-		// Update the map index, as AddSignature does.
+		// Update the map index, as AddSignature does (an ID already stored is updated in place).
 		if s.sigMap == nil {
 			s.sigMap = make(map[string]int)
 		}
+		if idx, ok := s.sigMap[sig.ID]; ok && idx >= 0 && idx < len(s.db.Signatures) && s.db.Signatures[idx].ID == sig.ID {
+			s.db.Signatures[idx] = *sig
+			continue
+		}
+		s.db.Signatures = append(s.db.Signatures, *sig)
 		s.sigMap[sig.ID] = len(s.db.Signatures) - 1
 	}
 	return nil
